@@ -47,8 +47,13 @@ const (
 	c04NumGk
 )
 
+// c04GkConnecting: the OnConnecting handler, called by the connect command between its first look at the
+// connection (closed / already authenticated) and the registration.  Numbered after c04NumGk so that random
+// plans never arm it: only fixed templates park a connect command there.
+const c04GkConnecting c04Gk = c04NumGk
+
 var c04GkNames = [...]string{"GkSubH", "GkBrokerSub", "GkPresAdd", "GkPresRem", "GkJoin", "GkLeave", "GkUnsubH",
-	"GkTransport", "GkDiscH", "GkAliveH", "GkConnH", "GkBrokerUnsub"}
+	"GkTransport", "GkDiscH", "GkAliveH", "GkConnH", "GkBrokerUnsub", "GkConnecting"}
 
 type c04Opts struct {
 	Pres bool `json:"pres"`
@@ -166,7 +171,7 @@ type c04Eng struct {
 	chs     []string
 
 	mu        sync.Mutex
-	armed     [c04NumGk]bool
+	armed     [c04NumGk + 1]bool
 	bypass    bool // gates pass with bypassDec (used for the atomic "other connection" actions and observation)
 	bypassDec bool
 	parks     []*c04Park
@@ -174,6 +179,8 @@ type c04Eng struct {
 	byGid     map[int64]*c04Thread
 	trace     []c04Ev
 	bsub      map[string]bool
+	bsubMap   map[string]bool // the map broker's node-level subscriptions (map plans)
+	useMap    bool
 	closeGid  int64 // goroutine of a close() the driver did not start itself, seen at Transport.Close
 	subOpts   map[string]c04Opts
 	stuck     string
@@ -285,7 +292,7 @@ func (b *c04MapBroker) Subscribe(chs ...string) error {
 			return c04ErrBoom
 		}
 		b.e.mu.Lock()
-		b.e.bsub[ch] = true
+		b.e.bsubMap[ch] = true
 		b.e.mu.Unlock()
 	}
 	return b.MemoryMapBroker.Subscribe(chs...)
@@ -297,7 +304,7 @@ func (b *c04MapBroker) Unsubscribe(chs ...string) error {
 			return c04ErrBoom
 		}
 		b.e.mu.Lock()
-		b.e.bsub[ch] = false
+		b.e.bsubMap[ch] = false
 		b.e.mu.Unlock()
 	}
 	return b.MemoryMapBroker.Unsubscribe(chs...)
@@ -415,12 +422,13 @@ func c04Channels(prefix string, n int) []string {
 }
 
 func c04NewEng(armed []c04Gk, nch int, withMap ...bool) (*c04Eng, error) {
-	e := &c04Eng{wake: make(chan struct{}, 1), why: map[string]int{}, byGid: map[int64]*c04Thread{}, bsub: map[string]bool{}, subOpts: map[string]c04Opts{}}
+	e := &c04Eng{wake: make(chan struct{}, 1), why: map[string]int{}, byGid: map[int64]*c04Thread{}, bsub: map[string]bool{}, bsubMap: map[string]bool{}, subOpts: map[string]c04Opts{}}
 	for _, k := range armed {
 		e.armed[k] = true
 	}
 	cfg := Config{LogLevel: LogLevelNone, ClientStaleCloseDelay: time.Hour}
 	useMap := len(withMap) > 0 && withMap[0]
+	e.useMap = useMap
 	if useMap {
 		cfg.Map = MapConfig{GetMapChannelOptions: func(string) MapChannelOptions {
 			return MapChannelOptions{Mode: MapModeEphemeral, KeyTTL: time.Minute, MinPageSize: 1}
@@ -451,6 +459,12 @@ func c04NewEng(armed []c04Gk, nch int, withMap ...bool) (*c04Eng, error) {
 	n.SetPresenceManager(e.pm)
 	e.node = n
 	e.chs = c04Channels("c", nch)
+	n.OnConnecting(func(ctx context.Context, ev ConnectEvent) (ConnectReply, error) {
+		if e.client != nil && ev.ClientID == e.client.uid {
+			e.gate(c04GkConnecting, "")
+		}
+		return ConnectReply{}, nil
+	})
 	n.OnConnect(func(c *Client) {
 		if c != e.client {
 			return
@@ -789,7 +803,7 @@ func (e *c04Eng) snapshot() {
 	for _, ch := range e.chs {
 		sn := c04Snap{N: e.node.hub.NumSubscribers(ch), IsSub: e.client.IsSubscribed(ch)}
 		e.mu.Lock()
-		sn.BSub = e.bsub[ch]
+		sn.BSub = e.bsub[ch] || e.bsubMap[ch] // subscribed in the stream or in the map broker
 		e.mu.Unlock()
 		m := e.node.subLock(ch)
 		if m.TryLock() {
@@ -1000,6 +1014,16 @@ func (e *c04Eng) mapGoLive(th *c04Thread, ch string) {
 		&protocol.Command{Id: 9}, time.Now(), e.mapReplyWriter(th))
 }
 
+// parkOf returns the first park of the given kind (nil if none).
+func (e *c04Eng) parkOf(k c04Gk) *c04Park {
+	for _, p := range e.parked() {
+		if p.kind == k {
+			return p
+		}
+	}
+	return nil
+}
+
 // parked returns the current parks in a deterministic order.
 func (e *c04Eng) parked() []*c04Park {
 	e.mu.Lock()
@@ -1156,7 +1180,7 @@ func (e *c04Eng) otherAdd(chI int, b bool) bool {
 	e.bypass, e.bypassDec = true, b
 	e.mu.Unlock()
 	gen := uint64(1000 + len(e.cmdsCoq))
-	_, err := e.node.addSubscription(ch, subInfo{client: e.others[slot], deltaType: deltaTypeNone, subGen: gen})
+	_, err := e.node.addSubscription(ch, subInfo{client: e.others[slot], deltaType: deltaTypeNone, subGen: gen, isMap: e.useMap})
 	e.mu.Lock()
 	e.bypass = false
 	e.mu.Unlock()
@@ -1319,7 +1343,7 @@ func (e *c04Eng) observe() c04Obs {
 			}
 		}
 		e.mu.Lock()
-		co.BSub = e.bsub[ch]
+		co.BSub = e.bsub[ch] || e.bsubMap[ch]
 		e.mu.Unlock()
 		co.Deliv = e.tr.count(ch)
 		o.Chs = append(o.Chs, co)
